@@ -309,7 +309,6 @@ def _check_part(kind, sig, calls, share, only, cnt, viol):
   stub = pt.Stub(res.pyi)
   ns, results = run_cpython(prelude, exprs)
   env = adm.Env(ns)
-  dflt = set(defaulted(sig))
   for i, ((npos, kws), (ok, val)) in enumerate(zip(calls, results)):
     errs = by_line.get(i, [])
     arity = sorted(set(errs) & ARITY)
@@ -329,8 +328,9 @@ def _check_part(kind, sig, calls, share, only, cnt, viol):
       cnt["out:accepted-by-both+binding-agrees"] += 1
     else:
       cnt["out:rejected-by-both:" + "+".join(arity)] += 1
-    # non-trivial: the call uses a keyword, a default, *args or **kw (when it binds) or a keyword (when not)
-    if kws or (ok and (npos != len(pos_names(sig)) or dflt)):
+    # non-trivial: the call passes a keyword, or binds using a default (fewer positionals than positional
+    # parameters / a keyword-only parameter left out) or *args (more positionals)
+    if kws or (ok and (npos != len(pos_names(sig)) or sig.ko)):
       cnt["nontrivial"] += 1
     if kind == "function" and bind_says_ok(ns, sig, npos, kws) != ok:
       cnt["inspect_bind_disagrees_with_real_call"] += 1
@@ -512,8 +512,8 @@ def run(rep, tier, seed):
   })
   rep.rule = ("evaluation = one call shape of one (kind, signature) program: pytype's errors on that line vs the real "
               "call under CPython, and when both accept the inferred result tuple vs the run-time tuple position by "
-              "position; non-trivial = the call passes a keyword argument, or binds while using a default, *args or "
-              "fewer/more positionals than positional parameters")
+              "position; non-trivial = the call passes a keyword argument, or binds while using a default or *args "
+              "(fewer/more positionals than positional parameters, or a keyword-only parameter left out)")
   rep.assumptions += [
       "oracle is the actual call executed by the CPython running the check (3.12); inspect.Signature.bind is only "
       "counted as a cross-check",
